@@ -36,4 +36,4 @@ for s, p in ThreadPoolExecutor(jobs).map(one, ids):
         line += ' unconfirmed-extra: ' + ' '.join(extra)
     print(line, flush=True)
     rows.append(line)
-open(os.path.join(VERIF, 'seeded', 'RESULTS.md'), 'w').write('| seed | target | result | VIOLATION (how) | exit 2 | bounded pass | native oracle finds failing input for |\n|---|---|---|---|---|---|---|\n' + '\n'.join(rows) + '\n')
+open(os.path.join(VERIF, 'seeded', 'RESULTS.md' if not sys.argv[1:] else 'RESULTS-partial.md'), 'w').write('| seed | target | result | VIOLATION (how) | exit 2 | bounded pass | native oracle finds failing input for |\n|---|---|---|---|---|---|---|\n' + '\n'.join(rows) + '\n')
